@@ -59,8 +59,11 @@ func c08Drivers(thorough bool) []*engine.HDriver {
 	// the local node management feature (role special) is subscribed like a server feature, and its subscribers are
 	// notified when its data changes (the use case data does at run time)
 	nm := []string{"sub:A:nm:Lnm:nm:d", "sub:B:nm:Lnm:nm:d", "unsub:A:nm:Lnm:d", "uc:1", "uc:0", "disc:A", "reconn:A", "sub:A:e1f1:L1lc:lc:d", "set:L1lc:2"}
+	// a local entity is removed and a new object added under its address: nobody is subscribed to the new features
+	// until it subscribes again, and a data change then notifies each subscriber once
+	repl := []string{"sub:A:e1f1:L2lc:lc:d", "sub:B:e1f1:L2lc:lc:d", "sub:A:e1f1:L1lc:lc:d", "unsub:A:e1f1:L2lc:d", "lrepl:2", "set:L2lc:2", "set:L2lc:1", "set:L1lc:2"}
 	return []*engine.HDriver{regDriver("subscriptions", c08Alphabet(thorough), true, false, nil), regDriver("subscriptions-generic-server-feature", gen, true, false, nil),
-		regDriver("subscriptions-node-management", nm, true, false, nil)}
+		regDriver("subscriptions-node-management", nm, true, false, nil), regDriver("subscriptions-local-entity-replaced", repl, true, false, nil)}
 }
 
 // c08Scenarios: the grant decision ("not subscribed already"), the removal of exactly the addressed
